@@ -193,6 +193,37 @@ def _nontrivial(R, C):
     return R >= 2 and C >= 2 and R != C
 
 
+def _provoke(ctx, rng, obj, methods):
+    """Calls that raise (a typo in a well ID, a well outside the plate) - the caller catches the error and goes on
+    using the same object, which must behave as if nothing had happened."""
+    for m in methods:
+        if rng.random() < 0.5:
+            continue
+        for bad in (["ZZ99"], ["A00"], [["A01", "Q77"]]):
+            try:
+                getattr(obj, m)(bad)
+            except Exception:
+                ctx.count("refused_call_before_the_judged_ones")
+
+
+def _trash(ctx, obj):
+    """The object is not used any more; whatever it exposes is overwritten (tables re-used as scratch space).
+    Objects constructed later must not notice."""
+    for k, v in list(vars(obj).items()):
+        try:
+            if isinstance(v, np.ndarray) and v.size and v.flags.writeable:
+                v[...] = "ZZ9" if v.dtype.kind in "USO" else 0
+            elif isinstance(v, dict) and v:
+                v.clear()
+            elif isinstance(v, list) and v:
+                v.clear()
+            else:
+                continue
+            ctx.count("discarded_object_overwritten")
+        except Exception:
+            pass
+
+
 class _Judge:
     """Calls one transform function on one input and evaluates the shape rule."""
 
@@ -289,6 +320,7 @@ def _run_shift(ctx, case):
             if dr or dc:
                 some_offset = True
             J = _Judge(ctx, "shift", {"shape_A": [ra, ca], "shape_B": [rb, cb], "shifted_A01": anchor})
+            _provoke(ctx, rng, sh, ("shift", "unshift"))
             for name, container, coords in inputs:
                 x = _map(coords, wid)
                 y = _map(coords, lambda r, c: wid(r + dr, c + dc))
@@ -303,6 +335,7 @@ def _run_shift(ctx, case):
                     again = J.call("shift", sh.shift, pre, container, name)
                     if again is not None:
                         J.eq("shift_inverts_unshift", again, y, "shift(unshift(y))", name, y)
+            _trash(ctx, sh)
     # anchors that are not wells of B
     outside = []
     if rb < 26:
@@ -344,6 +377,11 @@ def _run_rotate(ctx, case):
                      lambda: {"class": "WellRotator", "shape": [R, C], "raised": repr(exc)}):
         return
     J = _Judge(ctx, "rotate", {"shape": [R, C]})
+    _provoke(ctx, rng, rot, ("rotate_cw", "rotate_ccw"))
+    try:
+        _trash(ctx, WellRotator((R, C)))  # somebody else's rotator of the same plate, used up and overwritten
+    except Exception:
+        pass
     for name, container, coords in _inputs(rng, R, C):
         x = _map(coords, wid)
         # clockwise: (r, c) on R x C  ->  (c, R-1-r) on C x R
@@ -401,7 +439,7 @@ def _run_random(ctx, case):
         for dshape, dseed, dmode in (((R, C), seed + 1, mode), ((max(1, R - 1), C + 1), seed, "full"),
                                      ((R, C), seed + 7, "column" if mode != "column" else "row")):
             try:
-                WellRandomizer(dshape, dseed, mode=dmode)
+                _trash(ctx, WellRandomizer(dshape, dseed, mode=dmode))
             except Exception:
                 pass
         exc = None
